@@ -34,7 +34,7 @@ def gen_header(rng):
 
 
 def run(ctx):
-    tier, rng = ctx.tier, ctx.rng
+    tier, rng = ctx.tier, ctx.sub_rng("fam_socket.1")
     # ---------------- design
     d = ctx.tlc_dir("design", None)
     open(os.path.join(d, "FSX.tla"), "w").write(FSX)
